@@ -591,7 +591,9 @@ def stochastic_round_po2(x):
   eps = tf.keras.backend.epsilon()
   log2 = tf.keras.backend.log(2.0)
 
-  x_log2 = tf.round(tf.keras.backend.log(y + eps) / log2)
+  # eps only guards log(0): adding it to y would move inputs close to eps
+  # into the wrong pair of powers of two.
+  x_log2 = tf.round(tf.keras.backend.log(tf.maximum(y, eps)) / log2)
   po2 = tf.cast(pow(2.0, tf.cast(x_log2, dtype="float32")), dtype="float32")
   left_val = tf.where(po2 > y, x_log2 - 1, x_log2)
   right_val = tf.where(po2 > y, x_log2, x_log2 + 1)
